@@ -325,7 +325,8 @@ def absorb_private_helpers(modules, rounds=4):
             for st in mod.tree.body:
                 if isinstance(st, ast.FunctionDef):
                     defs.setdefault(st.name, []).append((mod, None, st))
-                if isinstance(st, ast.ClassDef):
+            for st in ast.walk(mod.tree):
+                if isinstance(st, ast.ClassDef):        # nested classes included
                     for m in st.body:
                         if isinstance(m, ast.FunctionDef):
                             defs.setdefault(m.name, []).append((mod, st, m))
@@ -1148,6 +1149,39 @@ def hoist_walrus(modules):
     return count
 
 
+def unroll_walrus_loops(modules):
+    """`while (x := E) <cond>:` (the assignment expression being the first thing the test evaluates, no else clause) is analysed as
+    `while True:` / `x = E` / `if not (x <cond>): break` / body.  Returns the number of rewritten loops."""
+    count = 0
+    for mod in modules.values():
+        for lp in ast.walk(mod.tree):
+            if not (isinstance(lp, ast.While) and not lp.orelse):
+                continue
+            w = _first_evaluated(lp.test)
+            if not (isinstance(w, ast.NamedExpr) and isinstance(w.target, ast.Name)):
+                continue
+            if any(isinstance(x, ast.Continue) for st in lp.body for x in ast.walk(st)):
+                continue        # a continue would skip the re-evaluation that now opens the body
+            pos = {k: getattr(lp, k) for k in ('lineno', 'col_offset') if hasattr(lp, k)}
+            pos.update(end_lineno=pos['lineno'], end_col_offset=pos['col_offset'] + 1)
+            name, val = w.target.id, w.value
+            keep = {k: getattr(w, k) for k in ('lineno', 'col_offset', 'end_lineno', 'end_col_offset') if hasattr(w, k)}
+            w.__class__ = ast.Name
+            w.__dict__.clear()
+            w.__dict__.update(dict(id=name, ctx=ast.Load(), **keep))
+            asg = ast.Assign(targets=[ast.Name(id=name, ctx=ast.Store(), **keep)], value=val, type_comment=None, **pos)
+            brk = ast.If(test=ast.UnaryOp(op=ast.Not(), operand=lp.test, **pos), body=[ast.Break(**pos)], orelse=[], **pos)
+            asg.lineno = pos['lineno'] + 0.1
+            brk.lineno = pos['lineno'] + 0.2
+            brk.body[0].lineno = pos['lineno'] + 0.3
+            for x in (asg, brk):
+                x.orig_lineno = pos['lineno']
+            lp.test = ast.Constant(value=True, **pos)
+            lp.body = [asg, brk] + lp.body
+            count += 1
+    return count
+
+
 def expand_conditional_statements(modules):
     """`x = a if c else b` (one side-effect-free name or attribute target) and `return a if c else b` are analysed as the if statement with the two
     assignments / returns.  Returns the number of expanded statements."""
@@ -1409,7 +1443,7 @@ class Program:
         self.deque_calls_normalised = normalise_deque_calls(self.modules)
         self.returns_inlined = inline_returned_temporaries(self.modules)
         self.tests_inlined = inline_test_temporaries(self.modules)
-        self.walrus_hoisted = hoist_walrus(self.modules)
+        self.walrus_hoisted = hoist_walrus(self.modules) + unroll_walrus_loops(self.modules)
         self.conditionals_expanded = expand_conditional_statements(self.modules)
         self.else_hoisted = hoist_else_after_leave(self.modules)
         split_tuple_assignments(self.modules)
